@@ -415,7 +415,7 @@ N_ATTR = len(ATTR_CHANNELS) * len(ATTR_SPECIALS)
 
 # ------------------------------------------------------------------------------------------------
 # family opt: optional attributes and column spans
-OPT_CASES = ["no-spans", "spans", "custom-height", "col-span-1", "col-span-2", "col-span-3", "col-overlap-cells", "row-without-cells", "sheet-hidden", "two-sheets-second-active", "merge-cells", "cell-t-n-empty-v", "cell-without-r", "row-without-r", "prefixed-main-namespace"]
+OPT_CASES = ["no-spans", "spans", "custom-height", "col-span-1", "col-span-2", "col-span-3", "col-overlap-cells", "row-without-cells", "sheet-hidden", "two-sheets-second-active", "merge-cells", "cell-t-n-empty-v", "cell-without-r", "row-without-r", "prefixed-main-namespace", "row-without-r-after-empty-rows"]
 
 
 def gen_opt(i):
@@ -446,6 +446,15 @@ def gen_opt(i):
         rows = '<row r="1"><c><v>1</v></c><c><v>11</v></c></row><row r="2"><c r="C2"><v>2</v></c><c><v>12</v></c></row>'
         cells[ckey(2, 1)] = {"kind": "n", "value": "11", "bits": bits(11), "formula": ""}
         cells[ckey(4, 2)] = {"kind": "n", "value": "12", "bits": bits(12), "formula": ""}
+    if oc == "row-without-r-after-empty-rows":
+        # rows that hold no cell at all (a spacer row with a height, an empty element) still count: the r-less rows
+        # behind them continue from THEIR number
+        rows = '<row r="1"><c r="A1"><v>1</v></c></row><row r="4" ht="30" customHeight="1"/><row><c><v>5</v></c><c r="C5"><v>55</v></c></row><row/><row><c r="B7"><v>7</v></c></row>'
+        cells.pop(ckey(3, 2), None)
+        cells[ckey(1, 5)] = {"kind": "n", "value": "5", "bits": bits(5), "formula": ""}
+        cells[ckey(3, 5)] = {"kind": "n", "value": "55", "bits": bits(55), "formula": ""}
+        cells[ckey(2, 7)] = {"kind": "n", "value": "7", "bits": bits(7), "formula": ""}
+        intent["sheets"][0]["rows"] = {"0000004": {"height": "30"}}
     if oc == "row-without-r":
         # r is optional on <row>: a row without it follows its predecessor (or is row 1)
         rows = '<row><c r="A1"><v>1</v></c></row><row><c r="C2"><v>2</v></c></row><row r="5"><c r="B5"><v>5</v></c></row><row><c><v>6</v></c></row>'
